@@ -94,8 +94,11 @@ pub fn run_jrnl(case: &Case) -> RunOutput {
     let w = world.clone();
     let log = issued.clone();
     let mut config_rng = Rng::substream(seed, "jrnl-config");
-    let fault_arm = config_rng.chance(0.4);
+    let fault_arm = config_rng.chance(0.5);
     let fault_rate = *config_rng.pick(&[0.03, 0.08, 0.2]);
+    // the tamper sweep costs about fifty times the concurrent phase: one run in eight carries it, so that
+    // the same budget explores many more interleavings of journalling calls with append faults
+    let tamper_arm = config_rng.chance(0.125);
     let state_path = format!("{}/state/log", world.data_path());
     let result = sim.block_on(async move {
         let mut rng = Rng::substream(seed, "jrnl");
@@ -325,7 +328,7 @@ pub fn run_jrnl(case: &Case) -> RunOutput {
     let mut tampered = 0u64;
     let mut rejected = 0u64;
     let mut accepted_prefix = 0u64;
-    if let (Some(entries), Some(ranges)) = (entries, entry_ranges(&journal)) {
+    if let (true, Some(entries), Some(ranges)) = (tamper_arm, entries, entry_ranges(&journal)) {
         let scratch = dir.join("tampered-journal");
         let mut rng = Rng::substream(seed, "tamper");
         let mut try_mutation = |out: &mut RunOutput, bytes: &[u8], class: &str, detail: String, suffix_loss: bool| {
@@ -414,8 +417,8 @@ pub fn run_jrnl(case: &Case) -> RunOutput {
     out.extra.insert("tamper_mutations".into(), tampered);
     out.extra.insert("tamper_rejected".into(), rejected);
     out.extra.insert("tamper_accepted_as_prefix".into(), accepted_prefix);
-    out.nontrivial = overlapping > 0 && tampered > 0;
-    out.shape = format!("{mode}|{}|y{}|cmds{}|ov{}|faults{}", case.policy, case.yield_prob, issued.len() / 4, overlapping.min(12), out.faults_fired.len().min(5));
+    out.nontrivial = overlapping > 0 && (tampered > 0 || !tamper_arm);
+    out.shape = format!("{mode}|tamper{}|{}|y{}|cmds{}|ov{}|faults{}", tamper_arm as u8, case.policy, case.yield_prob, issued.len() / 4, overlapping.min(12), out.faults_fired.len().min(5));
     let _ = std::fs::remove_dir_all(&dir);
     out
 }
